@@ -33,6 +33,7 @@ pub fn run(tier: Tier, seed: u64) -> i32 {
     opening_checks(&ev, tier, seed);
 
     ev.floor("srs degrees", ev.set_len("srs_degrees") as u64, tier.pick(10, 30));
+    ev.floor("reference strings of more than 2^13 points", ev.bucket_get("srs.beyond_2^13_points"), 1);
     ev.floor("commit at boundary (Err)", ev.bucket_get("commit.boundary_err"), 5);
     ev.floor("commit at max degree (Ok)", ev.bucket_get("commit.max_degree_ok"), 5);
     ev.floor("batch planted-error positions", ev.set_len("planted") as u64, 15);
@@ -43,8 +44,12 @@ pub fn run(tier: Tier, seed: u64) -> i32 {
 }
 
 fn srs_checks(ev: &Ev, tier: Tier, seed: u64) {
-    let mut degrees: Vec<usize> = vec![1, 2, 3, 4, 5, 7, 8, 9, 15, 16, 17, 31, 33, 64, 100, 128, 255, 256, 257, 512];
+    // (the two large degrees come first so that their workers start early: a
+    // reference string of more than 2^12 / 2^13 points is where block-wise
+    // processing of the powers would begin)
+    let mut degrees: Vec<usize> = vec![8200, 4100, 1, 2, 3, 4, 5, 7, 8, 9, 15, 16, 17, 31, 33, 64, 100, 128, 255, 256, 257, 512];
     if tier == Tier::Thorough {
+        degrees.splice(0..0, [20000usize, 16390, 8185, 8192]);
         degrees.extend([6, 10, 11, 12, 13, 20, 24, 32, 48, 63, 65, 96, 127, 129, 200, 384, 511, 513, 777, 1024, 1025, 2048]);
     }
     // zero degree must be an error
@@ -59,6 +64,9 @@ fn srs_checks(ev: &Ev, tier: Tier, seed: u64) {
         let desc = json!({"part": "srs", "degree": d});
         ev.case(&desc, true);
         ev.set_insert("srs_degrees", d);
+        if d + 7 > 8192 {
+            ev.bucket("srs.beyond_2^13_points");
+        }
         let pp = match guard(|| PublicParameters::setup(d, &mut rng)) {
             Ok(Ok(p)) => p,
             other => {
